@@ -713,6 +713,10 @@ impl Drop for Dirs {
         }
         fix(&self.cache);
         let _ = std::fs::remove_dir_all(&self.base);
+        // leave no empty per-process directory behind (fails harmlessly while other cases are running)
+        if let Some(root) = self.base.parent() {
+            let _ = std::fs::remove_dir(root);
+        }
     }
 }
 
